@@ -538,7 +538,10 @@ theorem run_body (n : Bool) (pl : Nat) (b : List Char) (hhead : pl = 0 → ∀ t
           rw [acc_run_cons, he]
           simp only [acc]
           split
-          all_goals first | rfl | exact absurd rfl hdot | exact absurd rfl hcomma
+          all_goals first
+            | rfl
+            | (rename_i h; exact absurd h (List.cons_ne_nil _ _))
+            | (rename_i h; injection h with h1 h2; first | exact absurd h1 hdot | exact absurd h1 hcomma)
   · simp [show foldMant ({ prefixLen := pl, neg := n } : St).mant (b.takeWhile Char.isDigit)
         = foldMant 0 (b.takeWhile Char.isDigit) from rfl, hov]
 
